@@ -983,6 +983,10 @@ archive_write_zip_header(struct archive_write *a, struct archive_entry *entry)
 		if (zip->entry_compression == COMPRESSION_UNSPECIFIED) {
 			zip->entry_compression = COMPRESSION_DEFAULT;
 		}
+		/* An lzma_alone stream of no data is not accepted back by
+		 * the reader ("Invalid lzma data"): store an empty file. */
+		if (size == 0 && zip->entry_compression == COMPRESSION_LZMA)
+			zip->entry_compression = COMPRESSION_STORE;
 		switch (zip->entry_compression) {
 		case COMPRESSION_STORE:
 			zip->entry_compressed_size = size;
